@@ -707,7 +707,8 @@ impl<'a> Run<'a> {
             },
             Op::ModifyRel { .. } => unreachable!("harness: ModifyRel is made concrete above"),
             Op::Advance(dt) => {
-                let t = self.now.saturating_add(*dt).min(clock_cap(self.case));
+                // (clock discipline may already have moved the clock a little past the cap: never go backwards)
+                let t = self.now.saturating_add(*dt).min(clock_cap(self.case)).max(self.now);
                 self.set_time(t);
                 expect_noop = true;
             }
